@@ -837,8 +837,8 @@ def stepSimple (s : St) (op : Op) : Option (St × String) :=
       if d.fl ≠ h.fl then ok s "badtype" else
       if d.lvl ≠ h.lvl then ok s "badlevel" else
       -- move assignment may assume that both objects outlive the call: refused when the old slot list, which the
-      -- assignment releases, may own the source (any flavour) or the destination (read again by trackable_signal)
-      if !h.fl.isAcc && (s.ownedG.any (fun p => p.2 = i) || (h.fl.isTrackable && s.ownedG.any (fun p => p.2 = j)))
+      -- assignment releases, may own the source or the destination (both are written to after the release)
+      if !h.fl.isAcc && (s.ownedG.any (fun p => p.2 = i) || s.ownedG.any (fun p => p.2 = j))
       then ok s "owned" else
       if h.fl.isAcc then
         -- no move assignment for `accumulated`: copy assignment
